@@ -424,6 +424,10 @@ def run(ctx):
     ctx.rule("R01.1", "update_expr_children rebuilds the same operator with the same attributes over the rewritten children in the same positions (shared with C01)")
     t0 = T0(ctx)
     c01.r011(ctx, t0, T1(ctx, t0))
+    # "every term is well-sorted .. and it describes the system exactly": the SMT-LIB text of every operator (smt/serialize.rs, an anchor of this
+    # property) - the expression-writer clauses of C05, reported under their own rule ids (C02 gets them through this function)
+    from . import c05
+    c05.run_expr(ctx)
 
 
 CLASS_ATOMS = ["info.uses.init>0", "info.uses.next>0", "info.uses.other>0", "info.is_input"]
@@ -518,6 +522,8 @@ def count_paths(n, is_call, depth=0):
                 sub = pt["subs"][cpos[0]] if pt.get("k") == "ptuple" and len(pt.get("subs", [])) == len(comps) else (pt if len(comps) == 1 else None)
                 if sub is not None and sub.get("k") == "plit" and isinstance(sub.get("v"), bool):
                     tags.add("is_const" if sub["v"] else "not_const")
+            if "guard" in arm and cond_tag(arm["guard"]):
+                tags.add(cond_tag(arm["guard"])[0])        # `Some(_) if state.is_const() => {}`
             br |= {(a, frozenset(ta | tags)) for a, ta in count_paths(arm["body"], is_call, depth)}
         return {(a + b, frozenset(ta | tb)) for a, ta in c for b, tb in br}
     if k in ("for", "while", "loop", "closure"):
